@@ -140,6 +140,7 @@ type Report struct {
 	WallS          float64          `json:"wall_s"`
 
 	distinct map[[16]byte]struct{}
+	inflight any
 	start    time.Time
 	dir      string
 }
@@ -232,9 +233,18 @@ func (r *Report) Note(format string, a ...any) {
 	r.mu.Unlock()
 }
 
-// InFlight writes the input of the call about to be made, so that a fatal
-// runtime error still leaves a witness on disk.
+// InFlight remembers the input of the call about to be made (cheap, in
+// memory); a recovered panic reports it. InFlightDisk additionally writes it
+// to disk so that a fatal runtime error (which recover() never sees) still
+// leaves a witness - use it per batch in crash-prone monitors.
 func (r *Report) InFlight(v any) {
+	r.mu.Lock()
+	r.inflight = v
+	r.mu.Unlock()
+}
+
+func (r *Report) InFlightDisk(v any) {
+	r.InFlight(v)
 	b, err := json.Marshal(v)
 	if err != nil {
 		b = []byte(fmt.Sprintf("%q", fmt.Sprint(v)))
